@@ -159,7 +159,7 @@ func (c *vxShortConn) Write(p []byte) (int, error) {
 
 const vxH12M0 = 96 // the server's msize before the negotiation
 
-func vxH12Bound(m int, dotu bool, maxWrite int) {
+func vxH12Bound(m int, dotu bool, maxWrite int, pre int) {
 	kit := vxNewKit(false, false, vxH12M0, true)
 	ops := kit.ops
 	base := vxNewNetConn()
@@ -169,12 +169,22 @@ func vxH12Bound(m int, dotu bool, maxWrite int) {
 	if dotu {
 		ver = "9P2000.u"
 	}
+	// requests answered before the negotiation (sent in one segment, so that they are in flight together and each
+	// gets a reply buffer of its own): their buffers, sized for the server's own msize, are recycled afterwards
+	if pre > 0 {
+		var seg []byte
+		for i := 0; i < pre; i++ {
+			seg = append(seg, refEncode(Tclunk, uint16(100+i), []refItem{refU32(uint32(50 + i))}, dotu)...)
+		}
+		base.in <- seg
+		vxQuiesce()
+	}
 	base.in <- refEncode(Tversion, NOTAG, []refItem{refU32(uint32(m)), refS(ver)}, dotu)
 	vxQuiesce()
 	base.in <- vxH12Attach(1, dotu)
 	vxQuiesce()
 	fs, ok := vxFrames(base.wire)
-	good := ok && len(fs) == 2 && fs[0].typ == Rversion && fs[1].typ == Rattach && vxH12LE32(fs[0].body[:4]) == uint32(m)
+	good := ok && len(fs) == pre+2 && fs[pre].typ == Rversion && fs[pre+1].typ == Rattach && vxH12LE32(fs[pre].body[:4]) == uint32(m)
 	vxAssert(good, "prologue-negotiated")
 	if !good {
 		return
@@ -187,17 +197,10 @@ func vxH12Bound(m int, dotu bool, maxWrite int) {
 	if conn == nil {
 		return
 	}
-	// reply buffers from before the negotiation: the Rversion buffer is one already; a client may have had more
-	// requests answered before it negotiated
-	switch nrec := vxChoose("recycled", 4); nrec {
-	case 3:
+	if vxBool("buffers-in-use") {
 		// no recycled buffer is available (other requests in flight hold them): the reply buffer is allocated afresh
 		for len(conn.rchan) > 0 {
 			<-conn.rchan
-		}
-	default:
-		for i := nrec; i > 0; i-- {
-			conn.rchan <- NewFcall(vxH12M0)
 		}
 	}
 	// a stat whose reply fills the old msize exactly: 58 bytes (+14 in .u) and the name
